@@ -268,8 +268,9 @@ theorem fireOp_inv (c : Cfg) (s : St) (now : Nat) (hsec : 0 < c.sec) (hnow : 0 <
   | ping =>
     show Inv c (sendPing c s now).1
     unfold sendPing
-    by_cases hpt : c.pongTimeout > 0
-    · simp only [hpt, if_true]
+    by_cases hpt : c.pongTimeout > 0 ∧ c.uni = false
+    · obtain ⟨h1, h2⟩ := hpt
+      simp only [h1, h2, and_self, if_true]
       exact schedule_inv c _ hst hau hp he
     · simp only [hpt, if_false]
       exact schedule_inv c _ hst hau hp he
